@@ -226,6 +226,12 @@ def gen_case(rng, idx, tier):
         extra = r.choice(["full", "step"])
         if r.random() < 0.6:
             extra += " %d" % r.choice([1, 3, 4, 6])
+        # which optimisers the description holds: mostly the modelled pair (coordinate-wise Brent + BFGS); else another
+        # pair (the last member Powell) or ONE member for all the parameters (harness/C10.cpp)
+        if r.random() < 0.3:
+            if len(extra.split()) < 2:
+                extra += " 2"
+            extra += " " + r.choice(["sp", "bp", "p", "b", "s", "c", "p", "sp"])
     kname = "brent" if kind == "brentin" else kind
     tol_s = hx(tol) if r.random() < 0.95 else "-"
     lines.append("opt %s %s %s %d %s" % (kname, pol, tol_s, mx, extra))
